@@ -341,6 +341,10 @@ val arith : tcfg -> binop -> z -> z -> ('a1, val0) outcome
 
 val binop_val : tcfg -> binop -> val0 -> val0 -> ('a1, val0) outcome
 
+val both_ptr : val0 -> val0 -> bool
+
+val ptr_cmp_name : binop -> string
+
 val builtin : tcfg -> string -> val0 list -> ('a1, val0) outcome option
 
 val match_pat : pat -> val0 -> env option
@@ -753,8 +757,6 @@ val with_end : drain_it -> eptr -> drain_it
 
 val drain_next : tcfg -> drain_it -> (elem option * drain_it) m
 
-val drain_next_back : tcfg -> drain_it -> (elem option * drain_it) m
-
 val drain_hint : drain_it -> z m
 
 val drain_rest : tcfg -> nat -> drain_it -> drain_it m
@@ -794,9 +796,25 @@ val filter_drop : tcfg -> dfilter_it -> unit m
 
 val make_into : tcfg -> nat -> into_it m
 
-val into_next : tcfg -> into_it -> (elem option * into_it) m
+val drain_of : nat -> drain_it m
 
-val into_next_back : tcfg -> into_it -> (elem option * into_it) m
+val into_of : nat -> into_it m
+
+val set_drain_pos : nat -> eptr -> unit m
+
+val set_drain_end : nat -> eptr -> unit m
+
+val set_into_pos : nat -> eptr -> unit m
+
+val drain_next_at : tcfg -> nat -> elem option m
+
+val drain_next_back_at : tcfg -> nat -> elem option m
+
+val into_next_at : tcfg -> nat -> elem option m
+
+val into_next_back_at : tcfg -> nat -> elem option m
+
+val into_len_at : nat -> z m
 
 val into_as_slice : tcfg -> into_it -> elem list m
 
